@@ -6,6 +6,7 @@ use bytes::{Buf, BytesMut};
 use tokio::{
     io::{AsyncReadExt, AsyncWriteExt, BufWriter},
     net::TcpStream,
+    time::{self, Duration},
 };
 
 use super::frame::{self, Frame};
@@ -69,6 +70,26 @@ where
         }
 
         self.stream.flush().await?;
+        Ok(())
+    }
+
+    /// Closes the connection from our side while the peer may still have requests in flight.
+    ///
+    /// Closing a socket that holds unread data makes the operating system reset the connection,
+    /// and a reset throws away whatever part of the last reply has not been transmitted yet. So
+    /// we first tell the peer that nothing more will come, then discard the requests that will
+    /// not be answered, and only then let the stream be dropped.
+    pub async fn close(&mut self) -> io::Result<()> {
+        self.stream.shutdown().await?;
+        let mut unanswered = [0u8; 4096];
+        let quiet = Duration::from_millis(20);
+        let mut rounds = 0;
+        while let Ok(Ok(n)) = time::timeout(quiet, self.stream.read(&mut unanswered)).await {
+            rounds += 1;
+            if n == 0 || rounds == 1024 {
+                break;
+            }
+        }
         Ok(())
     }
 
